@@ -27,6 +27,8 @@ CONSTANTS
   OthersCall = "never"
   KeepPagesWritable = FALSE
   TrampFlushed = TRUE
+  Regen = FALSE
+  SavedFrom = "install"
   UserCalls = TRUE
   MaxUserCalls = 4
   InstallKinds = {"jump"}
